@@ -79,6 +79,8 @@ class State:
 
 
 class Finding:
+    havoc = ()
+
     def __init__(self, site, kind, detail, model, pc_len, fn_stack, inputs=None):
         self.site = site
         self.kind = kind
@@ -282,7 +284,8 @@ class Engine:
         elif r == 'sat':
             m = self.small_model(st.pc, [z3.Not(okc)], m)
             self.findings.append(Finding(site, kind, detail, m, len(st.pc), [short_fn(f.fn.name) for f in st.frames],
-                                         self.extract_inputs(m)))
+                                         self.extract_inputs(m, st)))
+            self.findings[-1].havoc = st.env.get('havoc', ())
             self.site_samples[site] = {'kind': kind, 'status': 'violated'}
         else:
             self.stats['inconclusive'] += 1
@@ -311,7 +314,8 @@ class Engine:
             return True
         if r == 'sat':
             m = self.small_model(st.pc, [z3.Not(c)], m)
-            self.findings.append(Finding(label, kind, '', m, len(st.pc), [], self.extract_inputs(m)))
+            self.findings.append(Finding(label, kind, '', m, len(st.pc), [], self.extract_inputs(m, st)))
+            self.findings[-1].havoc = st.env.get('havoc', ())
             self.site_samples[label] = {'kind': kind, 'status': 'violated'}
             return False
         self.stats['inconclusive'] += 1
@@ -330,11 +334,14 @@ class Engine:
                 return m2
         return m
 
-    def extract_inputs(self, model):
+    def extract_inputs(self, model, st=None):
         out = {}
         if model is None:
             return out
-        for name, v in self.inputs.items():
+        items = list(self.inputs.items())
+        if st is not None:
+            items += list(st.env.get('inputs', {}).items())
+        for name, v in items:
             try:
                 out[name] = self.model_value(model, v)
             except Exception as e:  # noqa
@@ -747,6 +754,14 @@ class Engine:
         m = re.match(r'^(-?\d+)_(f32|f64)$', t)
         if m:
             return Opaque(m.group(2), t)
+        m = re.match(r'^(?:core|std)::num::<impl (u8|u16|u32|u64|u128|usize|i8|i16|i32|i64|i128|isize)>::(MAX|MIN|BITS)$', t)
+        if m:
+            b, sg = INT_TYPES[m.group(1)]
+            if m.group(2) == 'BITS':
+                return Int(BV(b, 32), 32, False)
+            if m.group(2) == 'MAX':
+                return Int(BV((1 << (b - 1)) - 1 if sg else (1 << b) - 1, b), b, sg)
+            return Int(BV((1 << (b - 1)) if sg else 0, b), b, sg)
         # enum-like constants printed bare (e.g. `InvalidInput`) and everything else
         ls = last_seg(t)
         for en, vs in self.si.enums.items():
@@ -1200,6 +1215,7 @@ class Engine:
         sc = short_callee(ctx.callee)
         self.stats['havoc_calls'][sc] = self.stats['havoc_calls'].get(sc, 0) + 1
         st = ctx.st
+        st.env['havoc'] = st.env.get('havoc', ()) + (sc,)
         # havoc places reachable through &mut arguments (one level)
         for a in ctx.args:
             if isinstance(a, Ref) and a.mut:
